@@ -238,6 +238,14 @@ fn entries() -> Vec<Entry> {
     let addr = P2PKHAddress::from_pubkey(&pk).unwrap();
     let ecies = ECIES::encrypt(b"attack at dawn", &k, &pk, false).unwrap().to_bytes();
     let ecies_nopk = ECIES::encrypt(b"attack at dawn", &k, &pk, true).unwrap().to_bytes();
+    // hand-built BIE1 buffers whose embedded key is in uncompressed form (a decoder might accept both forms)
+    let ecies_unc = {
+        let mut b = b"BIE1".to_vec();
+        b.extend_from_slice(&pk_unc.to_bytes().unwrap());
+        b.extend_from_slice(&ecies[37..]);
+        b
+    };
+    let ecies_long = ECIES::encrypt(&[0x5au8; 100], &k, &pk, false).unwrap().to_bytes();
     let mut der_flag = sig.to_der_bytes();
     der_flag.push(0x41);
 
@@ -297,14 +305,23 @@ fn entries() -> Vec<Entry> {
             let _ = p.to_public_key();
         }
     });
-    bytes_entry!("PublicKey::from_bytes", vec![pk.to_bytes().unwrap(), pk_unc.to_bytes().unwrap()], |b: &[u8]| {
-        if let Ok(p) = mark(PublicKey::from_bytes(b)) {
-            let _ = p.to_compressed();
-            let _ = p.to_decompressed();
-            let _ = p.to_p2pkh_address();
-            let _ = p.to_hex();
-        }
-    });
+    {
+        let (k2, sig2) = (k.clone(), sig.clone());
+        bytes_entry!("PublicKey::from_bytes", vec![pk.to_bytes().unwrap(), pk_unc.to_bytes().unwrap()], move |b: &[u8]| {
+            if let Ok(p) = mark(PublicKey::from_bytes(b)) {
+                let _ = p.to_compressed();
+                let _ = p.to_decompressed();
+                let _ = p.to_p2pkh_address();
+                let _ = p.to_hex();
+                // a decoded key is handed on to every consumer of public keys
+                let _ = ECDSA::verify_hashbuf(&[0x11; 32], &p, &sig2);
+                let _ = ECDSA::verify_digest(b"hello", &p, &sig2, bsv::SigningHash::Sha256);
+                let _ = bsv::ECDH::derive_shared_key(&k2, &p);
+                let _ = ECIES::encrypt(b"m", &k2, &p, false);
+                let _ = p.verify_message(b"hello", &sig2);
+            }
+        });
+    }
     bytes_entry!("P2PKHAddress::from_pubkey_hash", vec![addr.to_pubkey_hash()], |b: &[u8]| {
         if let Ok(a) = mark(P2PKHAddress::from_pubkey_hash(b)) {
             let _ = a.to_string();
@@ -331,7 +348,7 @@ fn entries() -> Vec<Entry> {
     });
     {
         let (k2, pk2) = (k.clone(), pk.clone());
-        bytes_entry!("ECIESCiphertext::from_bytes(has_pub_key)", vec![ecies.clone()], move |b: &[u8]| {
+        bytes_entry!("ECIESCiphertext::from_bytes(has_pub_key)", vec![ecies.clone(), ecies_unc.clone(), ecies_long.clone()], move |b: &[u8]| {
             if let Ok(c) = mark(ECIESCiphertext::from_bytes(b, true)) {
                 let _ = c.extract_public_key();
                 let _ = ECIES::decrypt(&c, &k2, &pk2);
